@@ -11,7 +11,7 @@ PRIMS6 = ["int32", "int64", "float32", "float64", "bool", "string"]
 
 def norm_tree(t):
     """field tree text with group type names and the case of field names' first letter normalised"""
-    t = re.sub(r"\|([A-Za-z0-9_]+)\|([rom])\{", r"|G|\2{", t)
+    t = re.sub(r"\|([^|{},]+)\|([rom])\{", r"|G|\2{", t)
     return t
 
 
@@ -24,6 +24,18 @@ def run(chk):
     forests = [f for i, f in enumerate(forests) if f not in forests[:i]]
     items = [("t%04d" % i, shapes.render(f, "t%04d" % i, PRIMS6), "T") for i, f in enumerate(forests)]
     names = {sid: shapes.name_of(f) for (sid, _, _), f in zip(items, forests)}
+    # column names that start with a lower-case letter outside ASCII (the regenerated field must still be exported);
+    # the Lean model of strings.Title covers ASCII only, so these take part in the oracles, not in the text tie
+    NONASCII = [
+        ("names:latin1", "type G1 struct {\n\tÂge float64 `parquet:\"âge\"`\n\tÜber *bool `parquet:\"über\"`\n}\n\ntype T struct {\n\tÉté int32 `parquet:\"été\"`\n\tÉquipe *G1 `parquet:\"équipe\"`\n\tÑandú string `parquet:\"ñandú\"`\n}\n"),
+        ("names:greek-cyrillic", "type T struct {\n\tΩmega int64 `parquet:\"ωmega\"`\n\tЖук *string `parquet:\"жук\"`\n\tPlain bool `parquet:\"plain\"`\n}\n"),
+    ]
+    skip_model = set()
+    for k, (nm, body) in enumerate(NONASCII):
+        sid = "t9%03d" % k
+        items.append((sid, "package %s\n\n%s" % (sid, body), "T"))
+        names[sid] = nm
+        skip_model.add(sid)
     srcs = {sid: src for sid, src, _ in items}
     with Lock():
         cov["steps"] = rebuild_tools(chk.log)
@@ -74,7 +86,9 @@ def run(chk):
     tr_orig = dict(zip(ok_ids, common.chunked_parallel(pair.impl, ["parse-struct T %s" % srcs[sid].encode().hex() for sid in ok_ids], workers=8, chunk=50)))
     nontrivial = set()
     for sid, a, b, tm in zip(ok_ids, so_i, so_m, tr_m):
-        if a != b:
+        if sid in skip_model:
+            tm = tr_regen.get(sid, "missing").split(" errs=")[0]
+        elif a != b:
             tie_breaks.append({"shape": names[sid], "what": "structs.Struct vs PQ.Structs.structOf (text)", "impl": bytes.fromhex(a).decode()[:300] if a not in ("panic",) else a, "model": b[:100]})
         t_regen = tr_regen.get(sid, "missing").split(" errs=")[0]
         if t_regen != tm:
